@@ -618,3 +618,277 @@ func ruleEVENTBOUNDARY(p *Program, rep *Report) {
 		rep.Unknown("EVENT-BOUNDARY", "Writer.Next|anchor", p.Pos(next.Pos()), "no writeState update after CommitEvent found (anchor lost)")
 	}
 }
+
+// ---- PERSIST-MEMORY-AGREE (C10) ----
+
+// rulePERSISTMEMORYAGREE: at commit the allocator state is written twice — into the new header
+// (allocator.fileCommitMeta) and, after the commit point, into memory (allocator.Commit).  A reopened
+// file loads the header value into the very field the running instance updated in memory
+// (readAllocatorState gives the pairing).  Both values must therefore be computed from the same inputs:
+// the rule compares, per header field, the set of allocator / transaction state fields the persisted
+// value depends on with the set the in-memory value depends on (interprocedural backward DATA slices — control
+// dependence is left out on both sides, it only adds the guards of the enclosing function —; the fields of
+// the intermediate allocCommitState are expanded through the stores that define them).
+func rulePERSISTMEMORYAGREE(p *Program, rep *Report) {
+	rep.Rule("PERSIST-MEMORY-AGREE", 3, "for every allocator header field, the value persisted by fileCommitMeta and the value allocator.Commit assigns to the in-memory field that readAllocatorState loads from that header field depend on the same allocator/transaction state (backward slices, allocCommitState fields expanded): a reopened file then starts from what the running instance had")
+	hdr := p.Struct("txfile", "metaPage")
+	cs := p.Struct("txfile", "allocCommitState")
+	isHdr, isCS := map[*types.Var]bool{}, map[*types.Var]bool{}
+	for i := 0; i < hdr.NumFields(); i++ {
+		isHdr[hdr.Field(i)] = true
+	}
+	for i := 0; i < cs.NumFields(); i++ {
+		isCS[cs.Field(i)] = true
+	}
+	loader := p.Func("txfile", "readAllocatorState")
+	commitMeta := p.Method("txfile", "allocator", "fileCommitMeta")
+	commit := p.Method("txfile", "allocator", "Commit")
+	rep.Analysed(funcName(loader), funcName(commitMeta), funcName(commit))
+	memOwner := func(f *types.Var) bool {
+		o := fieldOwner(p, f)
+		return o == "allocator" || o == "allocArea"
+	}
+	// location name of a store address: "<area>.<field>" for fields of an embedded area, else "<owner>.<field>"
+	locOf := func(addr ssa.Value, site ssa.CallInstruction) string {
+		fa, ok := addr.(*ssa.FieldAddr)
+		if !ok || !memOwner(fieldOfAddr(fa)) {
+			return ""
+		}
+		f := fieldOfAddr(fa)
+		switch base := fa.X.(type) {
+		case *ssa.FieldAddr:
+			return fieldOfAddr(base).Name() + "." + f.Name()
+		case *ssa.Parameter:
+			if fieldOwner(p, f) == "allocArea" {
+				if site == nil {
+					return ""
+				}
+				pi := paramIndex(base.Parent(), base)
+				if pi < 0 || pi >= len(site.Common().Args) {
+					return ""
+				}
+				if afa, ok := site.Common().Args[pi].(*ssa.FieldAddr); ok {
+					return fieldOfAddr(afa).Name() + "." + f.Name()
+				}
+				return ""
+			}
+		}
+		return fieldOwner(p, f) + "." + f.Name()
+	}
+	slice := func(v ssa.Value, ctx *sliceCtx, within map[*ssa.Function]bool) map[*types.Var]bool {
+		s := &slicer{p: p, fields: map[*types.Var]bool{}, seen: map[sliceKey]bool{}, within: within, dataOnly: true}
+		s.walk(v, 0, ctx, 0)
+		return s.fields
+	}
+	// stores defining the allocCommitState fields (anywhere in package txfile)
+	csStores := map[*types.Var][]*ssa.Store{}
+	for _, fn := range p.SrcFuncs() {
+		if fnPkgPath(fn) != modPath {
+			continue
+		}
+		for _, b := range fn.Blocks {
+			for _, ins := range b.Instrs {
+				if st, ok := ins.(*ssa.Store); ok {
+					if f := addrField(st.Addr); f != nil && isCS[f] {
+						csStores[f] = append(csStores[f], st)
+					}
+				}
+			}
+		}
+	}
+	// base dependencies: expand allocCommitState fields, keep allocator-side state only
+	expand := func(in map[*types.Var]bool) map[string]bool {
+		out := map[string]bool{}
+		done := map[*types.Var]bool{}
+		work := []*types.Var{}
+		for f := range in {
+			work = append(work, f)
+		}
+		for len(work) > 0 {
+			f := work[len(work)-1]
+			work = work[:len(work)-1]
+			if done[f] {
+				continue
+			}
+			done[f] = true
+			if isCS[f] {
+				for _, st := range csStores[f] {
+					for g := range slice(st.Val, nil, nil) {
+						work = append(work, g)
+					}
+				}
+				continue
+			}
+			switch fieldOwner(p, f) {
+			case "allocator", "allocArea", "freelist", "txAllocState", "txAllocArea", "txAreaManageState":
+				out[fieldOwner(p, f)+"."+f.Name()] = true
+			}
+		}
+		return out
+	}
+	// 1. loader pairing: memory location <- header field
+	pair := map[string]*types.Var{}
+	for fn := range staticReach(p, loader) {
+		for _, b := range fn.Blocks {
+			for _, ins := range b.Instrs {
+				st, ok := ins.(*ssa.Store)
+				if !ok {
+					continue
+				}
+				loc := locOf(st.Addr, nil)
+				if loc == "" {
+					continue
+				}
+				var hs []*types.Var
+				for f := range slice(st.Val, nil, nil) {
+					if isHdr[f] {
+						hs = append(hs, f)
+					}
+				}
+				if len(hs) == 1 {
+					pair[loc] = hs[0]
+				}
+			}
+		}
+	}
+	// 2. persisted values
+	persisted := map[*types.Var]map[string]bool{}
+	ppos := map[*types.Var]string{}
+	cmReach := staticReach(p, commitMeta)
+	for fn := range cmReach {
+		for _, b := range fn.Blocks {
+			for _, ins := range b.Instrs {
+				c, ok := ins.(ssa.CallInstruction)
+				if !ok || len(c.Common().Args) < 2 {
+					continue
+				}
+				sc := c.Common().StaticCallee()
+				if sc == nil || sc.Name() != "Set" {
+					continue
+				}
+				fa, ok := c.Common().Args[0].(*ssa.FieldAddr)
+				if !ok || !isHdr[fieldOfAddr(fa)] {
+					continue
+				}
+				h := fieldOfAddr(fa)
+				persisted[h] = expand(slice(c.Common().Args[1], nil, cmReach))
+				ppos[h] = p.InstrPos(ins)
+			}
+		}
+	}
+	// 3. in-memory values assigned by the switch
+	memory := map[string]map[string]bool{}
+	cReach := staticReach(p, commit)
+	addMem := func(loc string, deps map[string]bool) {
+		if memory[loc] == nil {
+			memory[loc] = map[string]bool{}
+		}
+		for k := range deps {
+			memory[loc][k] = true
+		}
+	}
+	for fn := range cReach {
+		for _, b := range fn.Blocks {
+			for _, ins := range b.Instrs {
+				st, ok := ins.(*ssa.Store)
+				if !ok {
+					continue
+				}
+				if loc := locOf(st.Addr, nil); loc != "" {
+					addMem(loc, expand(slice(st.Val, nil, cReach)))
+					continue
+				}
+				// store through the receiver of a helper (allocArea.commit): one location per call site
+				for _, site := range p.callIndex().sites[fn] {
+					if !cReach[site.Parent()] {
+						continue
+					}
+					if loc := locOf(st.Addr, site); loc != "" {
+						addMem(loc, expand(slice(st.Val, &sliceCtx{call: site}, cReach)))
+					}
+				}
+			}
+		}
+	}
+	var locs []string
+	for loc := range pair {
+		locs = append(locs, loc)
+	}
+	sort.Strings(locs)
+	n := 0
+	for _, loc := range locs {
+		h := pair[loc]
+		pd, okP := persisted[h]
+		md, okM := memory[loc]
+		if !okP || !okM {
+			continue // not part of the commit-time pair (e.g. set at creation only); PERSIST-AGREE / RELOAD-AGREE cover presence
+		}
+		n++
+		key := "metaPage." + h.Name() + "~" + loc
+		var onlyP, onlyM []string
+		for k := range pd {
+			if !md[k] {
+				onlyP = append(onlyP, k)
+			}
+		}
+		for k := range md {
+			if !pd[k] {
+				onlyM = append(onlyM, k)
+			}
+		}
+		sort.Strings(onlyP)
+		sort.Strings(onlyM)
+		if len(onlyP) == 0 && len(onlyM) == 0 {
+			rep.OK("PERSIST-MEMORY-AGREE", key, ppos[h], fmt.Sprintf("both depend on %d state field(s)", len(pd)))
+		} else {
+			rep.Bad("PERSIST-MEMORY-AGREE", key, ppos[h], fmt.Sprintf("the value persisted in header field %s and the value the in-memory switch assigns to %s are computed from different state: only the persisted value depends on %v, only the in-memory value on %v — after a reopen the allocator starts from a different %s than the instance that was never closed", h.Name(), loc, onlyP, onlyM, loc))
+		}
+	}
+	if n == 0 {
+		rep.Unknown("PERSIST-MEMORY-AGREE", "anchor", "", "no header field / in-memory field pair found (anchor lost)")
+	}
+}
+
+// ---- TRIM-SOURCE (C04, C07) ----
+
+// ruleTRIMSOURCE: undoing a transaction restores the area's end marker and must drop EVERY free region at or
+// above the restored marker (pages allocated from beyond the old marker and freed again inside the
+// transaction sit there).  The correct result is a function of the freelist and the RESTORED marker alone;
+// a trim whose result also depends on the marker the transaction had advanced to keeps or drops regions
+// according to where the transaction stopped growing — regions below the advanced marker but not adjacent
+// to it survive, and the same page id is handed out twice later.
+func ruleTRIMSOURCE(p *Program, rep *Report) {
+	rep.Rule("TRIM-SOURCE", 1, "in the rollback of an allocation area the new contents of freelist.regions (the trimmed list) depend on the restored end marker (txAllocArea.endMarker) and do not depend on the area's current, advanced end marker (allocArea.endMarker): backward slice incl. control dependence, with store-to-load forwarding")
+	v := newAllocVocab(p)
+	root := p.Method("txfile", "allocArea", "rollback")
+	n := 0
+	for _, fn := range sortedFns(staticReach(p, root)) {
+		if strings.HasPrefix(funcName(fn), "(*txfile.freelist)") || strings.HasPrefix(funcName(fn), "(*txfile.regionList)") || strings.HasPrefix(funcName(fn), "(txfile.regionList)") {
+			continue
+		}
+		for _, b := range fn.Blocks {
+			for _, ins := range b.Instrs {
+				st, ok := storesToField(ins, v.fRegions)
+				if !ok {
+					continue
+				}
+				n++
+				rep.Analysed(funcName(fn))
+				key := funcName(fn) + "|freelist.regions="
+				s := &slicer{p: p, fields: map[*types.Var]bool{}, seen: map[sliceKey]bool{}, forward: true, within: staticReach(p, root)}
+				s.walk(st.Val, 0, nil, 0)
+				switch {
+				case s.fields[v.fEndMarker]:
+					rep.Bad("TRIM-SOURCE", key, p.InstrPos(ins), "the free regions kept by the rollback depend on allocArea.endMarker, the marker the aborted transaction had advanced to: which regions at or above the restored marker are dropped then depends on where the transaction stopped growing (e.g. only a run adjacent to the advanced marker is removed) — a freed page between the restored and the advanced marker stays in the freelist and is handed out a second time when the file grows again")
+				case !s.fields[v.fTxEndMarker]:
+					rep.Bad("TRIM-SOURCE", key, p.InstrPos(ins), "the free regions kept by the rollback do not depend on the restored end marker (txAllocArea.endMarker): regions above it are not trimmed")
+				default:
+					rep.OK("TRIM-SOURCE", key, p.InstrPos(ins), "trim decided by the freelist and the restored marker only")
+				}
+			}
+		}
+	}
+	if n == 0 {
+		rep.Unknown("TRIM-SOURCE", "anchor", "", "allocArea.rollback does not rewrite freelist.regions (anchor lost; INV-FL decides whether a trim exists)")
+	}
+}
